@@ -8,19 +8,54 @@
 package main
 
 import (
+	"crypto/sha256"
 	"encoding/json"
 	"flag"
 	"fmt"
 	"os"
+	"time"
 )
 
 var enc = json.NewEncoder(os.Stdout)
+
+// scale multiplies every deadline of the harness: (measured machine-speed factor) x (-slow, used for retries of
+// cases that timed out).  A harness-side timeout is never an observation of the code under test.
+var scale = 1.0
+
+// par bounds the number of exchanges run concurrently (c06).
+var par = 12
+
+func dl(d time.Duration) time.Duration { return time.Duration(float64(d) * scale) }
+
+// machineSpeed times a fixed amount of work (about 15 ms on an idle core) and returns how much slower this
+// process currently runs, clamped to [1, 8].
+func machineSpeed() float64 {
+	buf := make([]byte, 1<<20)
+	t0 := time.Now()
+	for i := 0; i < 12; i++ {
+		h := sha256.Sum256(buf)
+		buf[i] = h[0]
+	}
+	f := float64(time.Since(t0)) / float64(15*time.Millisecond)
+	if f < 1 {
+		f = 1
+	}
+	if f > 8 {
+		f = 8
+	}
+	return f
+}
 
 func main() {
 	seed := flag.Uint64("seed", 1, "PRNG seed")
 	n := flag.Int("n", 100, "number of generated cases")
 	cases := flag.String("cases", "", "jsonl file with explicit cases (instead of generating)")
+	slow := flag.Float64("slow", 1, "multiply every deadline by this factor (retries of timed-out cases)")
+	flag.IntVar(&par, "par", 12, "exchanges run concurrently (c06)")
 	flag.Parse()
+	speed := machineSpeed()
+	scale = speed * *slow
+	fmt.Fprintf(os.Stderr, "uacpharness: machine-speed factor %.1f, deadlines x%.1f\n", speed, scale)
 	if flag.NArg() != 1 {
 		fmt.Fprintln(os.Stderr, "usage: uacpharness [-seed S] [-n N] [-cases file] c05|c06")
 		os.Exit(2)
